@@ -224,6 +224,8 @@ func parseEntry(name, rest string) (EntryOpts, error) {
 				return eo, err
 			}
 			eo.Preempt = n
+		case "numstr":
+			eo.NoNumStr = v == "off"
 		case "race":
 			eo.Race = v == "on" || v == "true"
 		case "gors":
